@@ -231,7 +231,7 @@ class Engine:
             except SyntaxError:
                 return None
         if isinstance(ann, ast.Name):
-            return self._SIMPLE_ANN.get(ann.id)
+            return self._SIMPLE_ANN.get(ann.id) or getattr(self.reg, "ann_types", {}).get(ann.id)
         if isinstance(ann, ast.BinOp) and isinstance(ann.op, ast.BitOr):
             sides = [ann.left, ann.right]
             non_none = [x for x in sides if not (isinstance(x, ast.Constant) and x.value is None)]
@@ -449,6 +449,9 @@ class Engine:
                         res = self.eval(part.value, st)
                         if len(res) == 1 and res[0][0] == OK and isinstance(res[0][2], Val) and res[0][2].ty == STR:
                             piece = res[0][2].term   # a string-valued name is interpolated as itself
+                        elif len(res) == 1 and res[0][0] == OK and isinstance(res[0][2], Val) and isinstance(res[0][2].ty, Atom):
+                            v = res[0][2]            # formatting is a function of the value: the same value gives the same text
+                            piece = z3.Function(f"format_{v.ty.name}", v.ty.sort(), z3.StringSort())(v.term)
                     except Unsupported:
                         piece = None
                 t = z3.Concat(t, piece if piece is not None else z3.String(fresh_name("fmt")))
